@@ -24,3 +24,4 @@ func verifObserveString(label string, s string)
 func verifQuiesce()
 func verifSetBudget(n int)
 func verifTerminates(budget int, label string)
+func verifTag(n int) func()
